@@ -23,7 +23,7 @@ WORLD_INFO = {'real': ['ConnectionHeartbeat, HeartbeatFuture, Connection idle tr
                        'ControlConnection.return_connection', 'Cluster/Session wiring of connection holders'],
               'stub': ['libev C binding', 'sockets/TCP', 'ThreadPoolExecutor', 'fake nodes (OPTIONS on a ready connection = heartbeat)']}
 ASSUMPTIONS = ['idle means: no message received since the previous round (DESIGN 5.1 item 11)']
-REQUIRED_PROBES = ['heartbeat_on_unwritable_connection', 'heartbeat_ok', 'heartbeat_dropped', 'heartbeat_error', 'busy_round_skipped', 'many_rounds_small_capacity']
+REQUIRED_PROBES = ['server_closed_idle_connection', 'heartbeat_on_unwritable_connection', 'heartbeat_ok', 'heartbeat_dropped', 'heartbeat_error', 'busy_round_skipped', 'many_rounds_small_capacity']
 
 
 def prepare():
@@ -58,6 +58,7 @@ def gen_plan(rng, tier):
     return {'cluster': spec, 'version': rng.choice([3, 4, 5]), 'interval': interval, 'timeout': timeout, 'rounds': rounds,
             'knobs': {'max_in_flight': rng.choice([3, 4, 8]), 'orphaned_threshold': 1000},
             'hb_script': hb, 'windows': windows, 'strategy': gen_strategy(rng), 'time_jump_p': 0,
+            'srvclose': ({'node': rng.randrange(n), 'at': round(rng.uniform(0.3, rounds * interval * 0.5), 3)} if rng.random() < 0.25 else None),
             'eagain': ({'node': rng.randrange(n), 'at': round(rng.uniform(0.3, rounds * interval * 0.5), 3)} if rng.random() < 0.25 else None)}
 
 
@@ -87,6 +88,18 @@ def run_plan(plan, seed, choices=None):
             w.spawn(traffic, 'traffic%d' % wi, wi, win, hosts)
         if plan.get('eagain'):
             w.spawn(backpressure, 'backpressure', plan['eagain'], hosts)
+        if plan.get('srvclose'):
+            sc = plan['srvclose']
+
+            def srv_close():
+                # the node closes its side of the idle pooled connection in an orderly way (FIN, no error)
+                for nc in fc.nodes[sc['node']].conns:
+                    if not nc.events and not nc.closed and not nc.conn.reset:
+                        nc.conn.server_close()
+                        st.setdefault('srvclosed', []).append((nc.label, sim.vnow(), sc['node'], sim.nlog))
+                sim.rec('fault', 'server closes idle pool connection n%d' % sc['node'])
+                w.net.count('server_fin')
+            sim.at(sc['at'], srv_close, 'server fin')
         w.sleep(plan['rounds'] * I)
         st['t_end'] = sim.vnow()
 
@@ -216,6 +229,19 @@ def run_plan(plan, seed, choices=None):
             V.add('C44/detect', 'unwritable-idle-connection-not-closed',
                   'socket fd=%d could not be written since %.3f (send buffer full) and stayed idle, but was %s (limit %.3f, interval %.2f)'
                   % (sk.fd, t0, 'closed at %.3f' % sk.closed_t if sk.closed_t is not None else 'never closed', limit, I))
+    for (label, t0, nidx, seq0) in st.get('srvclosed', []):
+        V.check('C44/detect')
+        sim.probe('server_closed_idle_connection')
+        limit = t0 + 2 * I + T + 0.5
+        if st.get('t_end', 0) > limit + 0.1:
+            node = fc.nodes[nidx]
+            down = [ev for ev in w.recorder.events if ev[2] == 'down' and ev[3] == node.addr and ev[0] > seq0]
+            newer = [nc for nc in node.conns if not nc.events and nc.label != label and nc.accepted_seq > seq0]
+            reacted_t = min([ev[1] for ev in down] + [nc.accepted_t for nc in newer] + [1e18])
+            if reacted_t > limit:
+                V.add('C44/detect', 'closed-idle-connection-owner-not-notified',
+                      'node %d closed idle pooled connection %s at %.3f; by %.3f (two heartbeat rounds later) its pool had neither replaced it nor '
+                      'reported the host down (%s)' % (nidx, label, t0, limit, 'reacted at %.3f' % reacted_t if reacted_t < 1e17 else 'never reacted'))
     for (seq, serial, f, orph) in leaks[:1]:
         V.add('C44/no-leak', 'in-flight-leak', 'between two heartbeat rounds at the end of the run (seq %d) connection #%d still had in_flight=%d with no request outstanding (orphaned %r)'
               % (seq, serial, f, orph))
